@@ -28,7 +28,17 @@ def gen_T19():
     names = [ast.unparse(n.comparators[0]) for n in ast.walk(enq) if isinstance(n, ast.Compare)
              and ast.unparse(n.left) == 'msg.command' and isinstance(n.ops[0], ast.In)]
     need(names == ['_high', '_low'], 'IrcMsgQueue.enqueue: expected tests msg.command in _high, then in _low; got %r' % names)
+    # Irc.die(): the only test that lets die() close the driver at once is  not self.afterConnect  (pinned exactly)
+    die = find_def(t, 'die', 'Irc')
+    ifs = [n for n in ast.walk(die) if isinstance(n, ast.If)]
+    need(len(ifs) == 1 and not ifs[0].orelse, 'Irc.die: expected exactly one if without else')
+    need(ast.unparse(ifs[0].test) == 'not self.afterConnect',
+         'Irc.die: the immediate-close test is %r, expected  not self.afterConnect' % ast.unparse(ifs[0].test))
+    need([ast.unparse(x) for x in ifs[0].body] == ['self._reallyDie()'], 'Irc.die: the if body is not  self._reallyDie()')
+    need([ast.unparse(x) for x in die.body if not (isinstance(x, ast.Expr) and isinstance(x.value, ast.Constant))][0] == 'self.zombie = True',
+         'Irc.die: does not start with  self.zombie = True')
     out = 'Definition HIGH : list (list N) :=\n  %s.\n' % clist(cstr(x) for x in high)
     out += 'Definition LOW : list (list N) :=\n  %s.\n' % clist(cstr(x) for x in low)
     out += 'Definition JOIN_CMD : list N := %s.\n' % cstr(join)
+    out += '(* Irc.die closes at once iff this test holds; Model.die mirrors it *)\nDefinition DIE_AT_ONCE_TEST : list N := %s.\n' % cstr(ast.unparse(ifs[0].test))
     return 'src/irclib.py', out
